@@ -4,6 +4,7 @@ CONSTANTS
   K = 1
   M = 2
   Variant = "as_coded"
+  Direct = FALSE
   GenHist = TRUE
 INVARIANT Emit
 CHECK_DEADLOCK FALSE
